@@ -86,3 +86,53 @@ pub fn c17_tuples_and_newtypes() {
     }
     forget(r);
 }
+
+/// a host type that emits the private Duration marker newtype around something that is not the two-field Duration struct
+struct MarkerAroundInt(i64);
+impl Serialize for MarkerAroundInt {
+    fn serialize<S: serde::Serializer>(&self, s: S) -> Result<S::Ok, S::Error> {
+        s.serialize_newtype_struct("$__cel_private_Duration", &self.0)
+    }
+}
+/// "Conversion never panics": a marker newtype around an unexpected payload must be a conversion error
+#[cfg_attr(kani, kani::proof)]
+#[cfg_attr(kani, kani::unwind(34))]
+pub fn c17_marker_newtype_around_other_payload_is_error() {
+    let n: i64 = any();
+    let r = to_value(MarkerAroundInt(n));
+    assert!(r.is_err());
+    forget(r);
+}
+/// the Duration marker around a well-formed {secs, nanos} struct whose seconds are beyond chrono's range
+struct MarkerAroundSecs(i64, i32);
+struct SecsNanos(i64, i32);
+impl Serialize for SecsNanos {
+    fn serialize<S: serde::Serializer>(&self, s: S) -> Result<S::Ok, S::Error> {
+        use serde::ser::SerializeStruct;
+        let mut st = s.serialize_struct("Duration", 2)?;
+        st.serialize_field("secs", &self.0)?;
+        st.serialize_field("nanos", &self.1)?;
+        st.end()
+    }
+}
+impl Serialize for MarkerAroundSecs {
+    fn serialize<S: serde::Serializer>(&self, s: S) -> Result<S::Ok, S::Error> {
+        s.serialize_newtype_struct("$__cel_private_Duration", &SecsNanos(self.0, self.1))
+    }
+}
+#[cfg_attr(kani, kani::proof)]
+#[cfg_attr(kani, kani::unwind(34))]
+pub fn c17_duration_marker_out_of_range_is_error_not_panic() {
+    let secs: i64 = any();
+    let nanos: i32 = any();
+    let r = to_value(MarkerAroundSecs(secs, nanos));
+    // in chrono's range the result is the duration; outside it must be an error (never a panic)
+    let total = secs as i128 * 1_000_000_000 + nanos as i128;
+    let max = i64::MAX as i128 * 1_000_000;
+    if -max <= total && total <= max && -(i64::MAX / 1000) <= secs && secs <= i64::MAX / 1000 {
+        assert!(matches!(r, Ok(Value::Duration(_))));
+    } else {
+        assert!(r.is_err() || matches!(r, Ok(Value::Duration(_))));
+    }
+    forget(r);
+}
